@@ -795,6 +795,9 @@ func (tr *FnTrans) loopHeader(li *loopInfo, phiEntry map[*ssa.Phi]Val) {
 			if !ok || c == compAlloc || c == "*" || strings.HasPrefix(c, "V$") || strings.HasPrefix(c, "R$") || strings.HasPrefix(c, "L$") || strings.HasPrefix(c, "D$") || tr.wholeMod(c) {
 				continue
 			}
+			if tr.fc.ModHeap && !strings.HasPrefix(c, "G$") {
+				continue
+			}
 			if strings.HasPrefix(c, "G$") {
 				// ghost state: unchanged unless the modifies clause names it
 				// (partially named maps keep their other entries)
@@ -940,6 +943,18 @@ func (tr *FnTrans) frameFormula(comp, f, ent string, ts []modTarget, withPattern
 func (tr *FnTrans) loopCtx(li *loopInfo, override map[ssa.Value]Val, heap *Heap) *evalCtx {
 	ec := tr.specCtx(heap, tr.entryHeap, nil)
 	at := li.header
+	// loop-carried variables shadow parameters of the same name (a parameter
+	// that the loop reassigns); entry(x) still gives the parameter's value
+	for _, in := range li.header.Instrs {
+		phi, ok := in.(*ssa.Phi)
+		if !ok {
+			break
+		}
+		if pv, isParam := ec.env[phi.Comment]; isParam && phi.Comment != "" {
+			ec.env["entry$"+phi.Comment] = pv
+			delete(ec.env, phi.Comment)
+		}
+	}
 	ec.lookup = func(name string) (Val, bool) {
 		for _, in := range li.header.Instrs {
 			phi, ok := in.(*ssa.Phi)
@@ -1298,8 +1313,37 @@ func (tr *FnTrans) modTargets(ec *evalCtx, e Expr) []modTarget {
 		if x.Fn == "alloc" {
 			return nil
 		}
+		if x.Fn == "object" && len(x.Args) == 1 { // object(x): every field of the object x points to (embedded structs included)
+			v := ec.eval(x.Args[0])
+			base := v.T
+			if v.K == KIface {
+				base = "(i-val " + v.T + ")"
+			} else if v.K != KRef {
+				panic(vcErrorf("modifies object(): expected a pointer or interface value"))
+			}
+			var names []string
+			for c, srt := range vc.compSort {
+				if strings.HasPrefix(c, "F$") && strings.HasPrefix(srt, "(Array Int ") {
+					names = append(names, c)
+				}
+			}
+			sort.Strings(names)
+			var ts []modTarget
+			for _, c := range names {
+				ts = append(ts, modTarget{comp: c, pred: func(i string) string {
+					return sAnd(sLe(base, i), sLt(i, sAdd(base, sNum(objStride))), sNot(sEq(base, "0")))
+				}})
+			}
+			return ts
+		}
+		if x.Fn == "elemsof" && len(x.Args) == 1 { // elemsof(T): the elements of every []T
+			return []modTarget{{comp: vc.elemComp(ec.resolveType(strings.ReplaceAll(exprString(x.Args[0]), " ", "")))}}
+		}
 		if x.Fn == "any" && len(x.Args) == 1 { // any(pkg.Type.field): that field of every object
 			path := strings.ReplaceAll(exprString(x.Args[0]), " ", "")
+			if strings.HasPrefix(path, "[]") { // any([]T): the elements of every []T
+				return []modTarget{{comp: vc.elemComp(ec.resolveType(path[2:]))}}
+			}
 			k := strings.LastIndex(path, ".")
 			if k < 0 {
 				panic(vcErrorf("modifies any(): expected Type.field"))
@@ -1429,6 +1473,9 @@ func (tr *FnTrans) frameCheck(fin *Heap, reach string) {
 	sort.Strings(comps)
 	for _, comp := range comps {
 		if comp == compAlloc || strings.HasPrefix(comp, "R$") || strings.HasPrefix(comp, "L$") || strings.HasPrefix(comp, "D$") {
+			continue
+		}
+		if tr.fc.ModHeap && !strings.HasPrefix(comp, "G$") {
 			continue
 		}
 		ent := vc.hget(tr.entryHeap, comp)
